@@ -40,6 +40,9 @@ fn do_run<S: Scenario>(s: &S, args: &BTreeMap<String, String>) -> i32 {
         recheck_every: arg(args, "recheck-every", "100").parse().expect("--recheck-every"),
         keep_digests: args.contains_key("digests"),
     };
+    if args.contains_key("progress") {
+        kit::sim::PROGRESS.store(true, std::sync::atomic::Ordering::Relaxed);
+    }
     let t0 = std::time::Instant::now();
     let res = run_batch(s, &cfg);
     let wall_ms = t0.elapsed().as_millis();
@@ -57,6 +60,9 @@ fn do_run<S: Scenario>(s: &S, args: &BTreeMap<String, String>) -> i32 {
             .set("ops", J::A(f.ops.iter().map(|o| o.to_json()).collect()))
             .set("violation", f.violation.to_json().set("at_op", J::U(f.at_op as u128)))
             .set("minimised_from", J::U(f.minimised_from as u128));
+        if let Some(l) = args.get("groestl-level") {
+            j.put("worker_args", J::A(vec![J::str("--groestl-level"), J::str(l)]));
+        }
         if !f.from_trace {
             // the failure needs what earlier runs of this batch left behind in the process: replay = the batch prefix
             j.put("kind", J::str("batch"));
@@ -209,6 +215,11 @@ fn main() {
     }
     kit::sim::install_panic_hook();
     hosts::install();
+    // hook H3: Groestl's one-time detection result for this process (a simulated host; must be set before any hash)
+    #[cfg(cryptocorrosion_verif)]
+    if let Some(l) = args.get("groestl-level").and_then(|s| s.parse::<u8>().ok()) {
+        groestl_aesni::verif::set_level(l);
+    }
     scen::arena::install_fault_handler();
     let code = match argv[1].as_str() {
         "selftest" => match selftest(arg(&args, "repo", "/repo")) {
